@@ -300,6 +300,13 @@ Close Scope Z_scope. Open Scope nat_scope.
 # --------------------------------------------------------------------------
 INT = ('int',)
 ANY = ('any',)
+OPT = ('opt',)          # an integer or None ("no value" markers travel through pipelines like any other element)
+OPT_OK = ("union", "zip", "combine_latest", "zip_latest", "sliding_window", "partition", "partition_unique", "unique",
+          "collect", "slice", "sink", "map")
+
+
+def has_opt(t):
+    return t == OPT or (isinstance(t, tuple) and any(has_opt(x) for x in t if isinstance(x, tuple)))
 
 
 def T_tup(k, e):
@@ -355,6 +362,8 @@ class Gen:
             if self.narrow:
                 return r.choice([0, 1, 2, 3])
             return r.choice([0, 1, 1, 2, 2, 3, 4, 5])
+        if t[0] == 'opt':
+            return r.choice([None, None, 0, 1, 2, 3])
         if t[0] == 'tup':
             k = t[1] if t[1] is not None else r.choice([0, 1, 2, 3])
             return tuple(self.gen_value(t[2], depth + 1) for _ in range(k))
@@ -368,7 +377,7 @@ class Gen:
         types = []
         nsrc = r.choice([1, 1, 1, 2, 2, 3])
         for _ in range(nsrc):
-            t = r.choice([INT, INT, INT, INT, T_tup(2, INT), T_list(INT)])
+            t = r.choice([INT, INT, INT, INT, T_tup(2, INT), T_list(INT), OPT])
             nodes.append({"k": "source"})
             types.append(t)
         target = r.randint(nsrc + 1, max(nsrc + 1, self.max_nodes))
@@ -470,6 +479,8 @@ class Gen:
 
     def make(self, k, u, t, nodes, types, cands):
         r = self.r
+        if has_opt(t) and k not in OPT_OK:
+            return None
         if k == "map":
             if t == INT:
                 f = r.choice([['FInc'], ['FDouble'], ['FNeg'], ['FAddK', r.choice([-1, 2, 3])],
